@@ -858,6 +858,19 @@ def _make_exprlike_fst(  # TODO: this needs a refactor, cleanup and simplificati
 
     _validate_put_ast(self, put_ast, idx, field, static)
 
+    if put_ast.__class__ is arguments:  # root arguments location is whole source so strip() doesn't remove a trailing line comment like it does for other nodes, do it here otherwise the comment would eat the closing delimiter
+        put_lines = put_fst._lines
+        last_ln = len(put_lines) - 1
+        ln, col = last_child.pars()[2:] if (last_child := put_fst.last_child()) else (0, 0)
+
+        if ((frag := prev_frag(put_lines, ln, col, last_ln, len(put_lines[last_ln]), True))
+            and frag.ln == last_ln
+            and frag.src.startswith('#')
+        ):
+            put_lines[last_ln] = bistr(put_lines[last_ln][:frag.col].rstrip())
+
+            put_fst._touch()
+
     # figure out parentheses
 
     pars = fst.FST.get_option('pars', options)
